@@ -30,7 +30,6 @@ from typing import (
     Iterable,
     Sequence,
     List,
-    Set,
     NamedTuple,
     cast,
 )
@@ -89,21 +88,26 @@ def _pull_path_namespace(
         source_qs = [squery]
 
     for source_q in source_qs:
-        s_paths: Set[Tuple[irast.PathId, pgce.PathAspect]] = set()
+        # An insertion-ordered set: the order in which paths are pulled
+        # decides the order of the target's rvar map, which must not vary
+        # between compilations (PathId hashes are not stable).
+        s_paths: dict[Tuple[irast.PathId, pgce.PathAspect], None] = {}
         if flavor == 'normal':
             if hasattr(source_q, 'path_outputs'):
-                s_paths.update(source_q.path_outputs)
+                s_paths.update(dict.fromkeys(source_q.path_outputs))
             if hasattr(source_q, 'path_namespace'):
-                s_paths.update(source_q.path_namespace)
+                s_paths.update(dict.fromkeys(source_q.path_namespace))
             if isinstance(source_q, pgast.Query):
-                s_paths.update(source_q.path_rvar_map)
+                s_paths.update(dict.fromkeys(source_q.path_rvar_map))
         elif flavor == 'packed':
             if hasattr(source_q, 'packed_path_outputs'):
                 if source_q.packed_path_outputs:
-                    s_paths.update(source_q.packed_path_outputs)
+                    s_paths.update(
+                        dict.fromkeys(source_q.packed_path_outputs))
             if isinstance(source_q, pgast.Query):
                 if source_q.path_packed_rvar_map:
-                    s_paths.update(source_q.path_packed_rvar_map)
+                    s_paths.update(
+                        dict.fromkeys(source_q.path_packed_rvar_map))
         else:
             raise AssertionError(f'unexpected flavor "{flavor}"')
 
